@@ -46,6 +46,10 @@ type cqlCase struct {
 	Elems  []json.RawMessage `json:"elems"`
 	V2     bool              `json:"v2"`
 	Reps   []string          `json:"reps"`
+	Dests  []string          `json:"dests"`
+	N      int               `json:"n"`
+	Head   []int             `json:"head"`
+	Elem   []int             `json:"elem"`
 }
 
 func bigOf(neg bool, mag []int) *big.Int {
@@ -234,6 +238,15 @@ func (r *cqlRun) intCase(c cqlCase) {
 					r.bad("C13", "int-encode-silent|"+c.Cql+"|"+c.Rep, fmt.Sprintf("%s (%s): out of range for %s but Encode returned % x without error", tag, form, c.Cql, b), c)
 				default:
 					r.distinct["enc/"+c.Cql+"/"+c.Rep+"/"+n.String()] = true
+				}
+				// C11 proper: what the codec produced, decoded back into the same representation, is the value
+				if err == nil && p == "" && b != nil {
+					back := newIntDest(c.Rep)
+					if wasNull, derr, dp := safeDecode(codec, b, back, v); dp != "" || derr != nil || wasNull {
+						r.bad("C11", "int-roundtrip-decode|"+c.Cql+"|"+c.Rep, fmt.Sprintf("%s (%s): encoded to % x, which does not decode back into *%s: %v %s", tag, form, b, c.Rep, derr, dp), c)
+					} else if got, ok := destAsBig(back); !ok || got.Cmp(n) != 0 {
+						r.bad("C11", "int-roundtrip-value|"+c.Cql+"|"+c.Rep, fmt.Sprintf("%s (%s): encoded to % x, which decodes back as %v", tag, form, b, got), c)
+					}
 				}
 			}
 		}
@@ -754,6 +767,121 @@ func (r *cqlRun) nullCase(c cqlCase) {
 	}
 }
 
+func (r *cqlRun) nullCollCase(c cqlCase) {
+	udt, _ := datatype.NewUserDefined("ks", "t", []string{"a", "b"}, []datatype.DataType{datatype.Int, datatype.Varchar})
+	var dt datatype.DataType
+	switch c.Kind {
+	case "list":
+		dt = datatype.NewList(datatype.Int)
+	case "set":
+		dt = datatype.NewSet(datatype.Int)
+	case "map":
+		dt = datatype.NewMap(datatype.Int, datatype.Varchar)
+	case "tuple":
+		dt = datatype.NewTuple(datatype.Int, datatype.Varchar)
+	case "udt":
+		dt = udt
+	}
+	codec, err := datacodec.NewCodec(dt)
+	if err != nil {
+		panic(err)
+	}
+	type pair struct {
+		A int32
+		B string
+	}
+	for _, v := range []primitive.ProtocolVersion{primitive.ProtocolVersion3, primitive.ProtocolVersion5} {
+		r.rep.Evaluations++
+		if b, err, p := safeEncode(codec, nil, v); p != "" || err != nil || b != nil {
+			r.bad("C14", "nullcoll-encode-untyped|"+c.Kind, fmt.Sprintf("%s.Encode(nil) = (% x, %v) %s", c.Kind, b, err, p), c)
+		}
+		for _, dk := range c.Dests {
+			var dest interface{}
+			switch dk {
+			case "slice":
+				if c.Kind == "tuple" || c.Kind == "udt" {
+					d := []interface{}{int32(5), "x"}
+					dest = &d
+				} else {
+					d := []int32{5, 6}
+					dest = &d
+				}
+			case "array":
+				if c.Kind == "tuple" || c.Kind == "udt" {
+					d := [2]interface{}{int32(5), "x"}
+					dest = &d
+				} else {
+					d := [2]int32{5, 6}
+					dest = &d
+				}
+			case "map":
+				if c.Kind == "udt" {
+					d := map[string]interface{}{"a": int32(5)}
+					dest = &d
+				} else {
+					d := map[int32]string{5: "x"}
+					dest = &d
+				}
+			case "struct":
+				d := pair{5, "x"}
+				dest = &d
+			case "iface":
+				var d interface{} = "stale"
+				dest = &d
+			}
+			r.rep.Evaluations++
+			wasNull, err, p := safeDecode(codec, nil, dest, v)
+			switch {
+			case p != "":
+				r.bad("C14", "nullcoll-decode-panic|"+c.Kind+"|"+dk, fmt.Sprintf("%s.Decode(NULL, %T): %s", c.Kind, dest, p), c)
+			case err != nil:
+				r.bad("C14", "nullcoll-decode-error|"+c.Kind+"|"+dk, fmt.Sprintf("%s.Decode(NULL, %T): %v", c.Kind, dest, err), c)
+			case !wasNull:
+				r.bad("C14", "nullcoll-decode-notreported|"+c.Kind+"|"+dk, fmt.Sprintf("%s.Decode(NULL, %T): wasNull=false", c.Kind, dest), c)
+			case !reflect.ValueOf(dest).Elem().IsZero():
+				r.bad("C14", "nullcoll-decode-stale|"+c.Kind+"|"+dk, fmt.Sprintf("%s.Decode(NULL, %T) left %v in the destination", c.Kind, dest, reflect.ValueOf(dest).Elem().Interface()), c)
+			default:
+				r.distinct["nullcoll/"+c.Kind+"/"+dk] = true
+			}
+		}
+	}
+}
+
+func (r *cqlRun) bigCollCase(c cqlCase) {
+	v := primitive.ProtocolVersion4
+	if c.V2 {
+		v = primitive.ProtocolVersion2
+	}
+	codec, _ := datacodec.NewList(datatype.NewList(datatype.Int))
+	want := append([]byte{}, intsToB(c.Head)...)
+	elem := intsToB(c.Elem)
+	for i := 0; i < c.N; i++ {
+		want = append(want, elem...)
+	}
+	val := make([]int32, c.N)
+	for i := range val {
+		val[i] = 1
+	}
+	tag := fmt.Sprintf("list<int> of %d elements, v2=%v", c.N, c.V2)
+	r.rep.Evaluations++
+	b, err, p := safeEncode(codec, val, v)
+	if p != "" || err != nil {
+		r.bad("C11,C12", "bigcoll-encode", fmt.Sprintf("%s: %v %s", tag, err, p), c)
+	} else if !bytes.Equal(b, want) {
+		r.bad("C12", "bigcoll-encode-bytes", fmt.Sprintf("%s: first bytes % x, specification % x", tag, clip(b, 12), clip(want, 12)), c)
+	}
+	var back []int32
+	if wasNull, err, p := safeDecode(codec, want, &back, v); p != "" {
+		r.bad("C11,C12", "bigcoll-decode-panic", tag+": "+p, c)
+	} else if err != nil {
+		r.bad("C11,C12", "bigcoll-decode", fmt.Sprintf("%s: %v", tag, err), c)
+	} else if wasNull || !reflect.DeepEqual(back, val) {
+		r.bad("C11,C12", "bigcoll-decode-value", fmt.Sprintf("%s: decoded %d elements", tag, len(back)), c)
+	} else {
+		r.distinct[tag] = true
+	}
+}
+
 func cqlCheck(args []string) int {
 	fs := flag.NewFlagSet("cql", flag.ExitOnError)
 	casePath := fs.String("cases", "", "cases from CqlValue.tla (ndjson)")
@@ -781,6 +909,10 @@ func cqlCheck(args []string) int {
 			run.collCase(c)
 		case "null":
 			run.nullCase(c)
+		case "nullcoll":
+			run.nullCollCase(c)
+		case "bigcoll":
+			run.bigCollCase(c)
 		default:
 			return fmt.Errorf("unknown case family %q", c.Fam)
 		}
